@@ -9,13 +9,14 @@
    * per-accelerator discharge of the hypotheses, proved: the anchor part of findFirstCharDefault
      (C03_default_anchor_jump, from the C04 anchor facts as hypotheses) and the bump-along shortcut
      (C03_bump_sound, C03_bump_discharges_H3, on the reference semantics).
-   * NOT proved here: (H1) for the Boyer-Moore scan, the first-character loop and the optimized
-     finders (leading string(s), fixed-distance char/string/sets, literal-after-loop, landmark chain,
-     trailing fixed-length end), (H2) for MinRequiredLength, and the raw-string prefilters.  These are
-     checked on the implementation at every position by harness leg c03-accel (candidate finder vs
-     table of successful attempts) and replayed through this model by leg c03-scanmodel. *)
-From Verif Require Import Base.Prelude Model.Tree Model.Spec Model.Scan
-  Proofs.ScanProofs Proofs.ScanBumpProofs.
+   * (H1) for the optimized finders of runner.go:1468-1945 (Model/Finder.v, tied to the code at every
+     position by leg c03-finder): second half of this file, each from the compile-time fact it relies on.
+   * NOT proved here: (H1) for the Boyer-Moore scan (the machine is not modelled) and the raw-string
+     prefilters.  These are checked on the implementation at every position by harness leg c03-accel
+     (candidate finder vs table of successful attempts) and replayed through this model by leg
+     c03-scanmodel. *)
+From Verif Require Import Base.Prelude Model.Tree Model.Spec Model.Scan Model.Finder
+  Proofs.ScanProofs Proofs.ScanBumpProofs Proofs.FinderProofs.
 
 (* ---- the generic theorem ------------------------------------------------------------------
    sc_H1_true : finder p = (true,q)  -> q at-or-beyond p, in the text, no match in [p,q)
@@ -267,4 +268,244 @@ Example C03_bump_lazy_committing_atomic_counterexample :
   attempt e 10 ex_root_lazy 0 = Ok None /\
   bp_run e COne 97 0 0 = 2 /\
   attempt e 10 ex_root_lazy 1 = Ok (Some {| pos := 3; caps := [(0, [(1, 2)])] |}).
+Proof. vm_compute. repeat split; reflexivity. Qed.
+
+
+(* =========================================================================================
+   The optimized candidate finders (runner.go:1468-1945; model: Model/Finder.v, proofs:
+   Proofs/FinderProofs.v).
+
+   For a matcher [exec] over [text] (n = zlen text), [fd_succeeds exec q] = the attempt at q matches.
+   A finder F : position -> res (found, Runtextpos) is SOUND for the matcher ([fd_sound]) when at every
+   position p of the text it answers Ok (found, q), never Crash / Fuel, with p <= q <= n, no successful
+   attempt in [p, q), and no successful attempt in [p, n] at all when found = false.  Each theorem
+   below has the form   FACT about the matcher  ->  the finder of that mode is sound;
+   C03_finder_sound_H1 turns soundness into the two (H1) hypotheses of C03_scan_finder_sound and
+   C03_finder_scan_sound concludes "scan with this finder = accelerator-free scan".
+   The facts are what the analysis publishes in FindOptimizations:
+     fd_minlen_fact m          a match at q needs m runes ahead: m <= n - q          (C04_min_len_sound)
+     fd_trailing_end_fact L    every match starts at n - L                 (C04_trailing_fixed_length_sound)
+     fd_prefix_fact eqc P      the text at q starts with P, runes compared by eqc (exact, ASCII fold,
+                               or "x = c or ToLower x = c", whichever the finder uses)
+     fd_prefixes_fact eqc Ps   ... starts with one of Ps
+     fd_fdchar_fact c d        text[q+d] = c
+     fd_fdstring_fact s d      the text at q+d starts with s
+     fd_fds_fact sets          for every set s of the list, text[q + s.Distance] is in s (as
+                               charInFixedDistanceSet computes membership)
+   ========================================================================================= *)
+
+Theorem C03_finder_sound_H1 :
+  forall (R : Type) (text : list Z) (exec : Z -> option R * Z) (F : Z -> res (bool * Z)),
+    fd_sound R text exec F ->
+    sc_H1_true R (zlen text) false (fd_total F) exec /\ sc_H1_false R (zlen text) false (fd_total F) exec.
+Proof. exact fd_sound_H1. Qed.
+Print Assumptions C03_finder_sound_H1.
+
+Theorem C03_finder_scan_sound :
+  forall (R : Type) (text : list Z) (exec : Z -> option R * Z) (minreq : Z) (F : Z -> res (bool * Z)),
+    fd_sound R text exec F ->
+    fd_minlen_fact R text exec minreq ->
+    sc_H3 R (zlen text) false exec ->
+    forall start prevlen, 0 <= start <= zlen text ->
+    exists r, scan (zlen text) false minreq (fd_total F) exec start prevlen = Ok r
+           /\ naive_scan (zlen text) false exec start prevlen = Ok r.
+Proof. exact fd_scan_sound. Qed.
+Print Assumptions C03_finder_scan_sound.
+
+(* TrailingAnchor_FixedLength_LeftToRight_End: runner.go:1531 findTrailingFixedLengthEnd *)
+Theorem C03_finder_trailing_end :
+  forall (R : Type) (text : list Z) (exec : Z -> option R * Z) (L : Z), 0 <= L ->
+    fd_trailing_end_fact R text exec L ->
+    fd_sound R text exec (fun p => fd_find_trailing_fixed_length_end text p L).
+Proof. exact fd_trailing_end_sound. Qed.
+Print Assumptions C03_finder_trailing_end.
+
+(* LeadingString_LeftToRight / LeadingString_OrdinalIgnoreCase_LeftToRight: runner.go:1541
+   findLeadingStringLeftToRight.  [fd_leading_eqc lower ic P] is the comparison the finder uses:
+   equality; under ignoreCase foldASCII x = foldASCII c when P is all ASCII, else x = c or ToLower x = c. *)
+Theorem C03_finder_leading_string :
+  forall (R : Type) (text : list Z) (exec : Z -> option R * Z) (lower : Z -> Z) (minreq : Z),
+    fd_minlen_fact R text exec minreq ->
+    forall (P : list Z) (ic : bool),
+    fd_prefix_fact R text exec (fd_leading_eqc lower ic P) P ->
+    fd_sound R text exec (fun p => fd_find_leading_string text lower minreq p P ic).
+Proof. exact fd_leading_string_sound. Qed.
+Print Assumptions C03_finder_leading_string.
+
+(* LeadingStrings_LeftToRight / LeadingStrings_OrdinalIgnoreCase_LeftToRight: runner.go:1571
+   findLeadingStringsLeftToRight, both the position-by-position loop and the first-rune search.
+   Side conditions on the published data: at least one prefix, no empty prefix, and (for the
+   first-rune search) LeadingPrefixFirstRunes contains the first rune of every prefix - which is what
+   leadingPrefixFirstRunes computes (C03_leading_prefix_first_runes_cover). *)
+Theorem C03_finder_leading_strings :
+  forall (R : Type) (text : list Z) (exec : Z -> option R * Z) (lower : Z -> Z) (minreq : Z),
+    fd_minlen_fact R text exec minreq ->
+    forall (Ps : list (list Z)) (firsts : list Z) (ic : bool),
+    Ps <> [] -> Forall (fun P => P <> []) Ps ->
+    (ic = false -> fd_first_runes_ok Ps firsts) ->
+    fd_prefixes_fact R text exec (fd_strings_eqc lower ic) Ps ->
+    fd_sound R text exec (fun p => fd_find_leading_strings text lower minreq p Ps firsts ic).
+Proof. exact fd_leading_strings_sound. Qed.
+Print Assumptions C03_finder_leading_strings.
+
+Theorem C03_leading_prefix_first_runes_cover :
+  forall Ps, fd_first_runes_ok Ps (fd_leading_prefix_first_runes Ps).
+Proof. exact fd_leading_prefix_first_runes_ok. Qed.
+Print Assumptions C03_leading_prefix_first_runes_cover.
+
+(* FixedDistanceChar_LeftToRight: runner.go:1634 findFixedDistanceCharLeftToRight *)
+Theorem C03_finder_fixed_distance_char :
+  forall (R : Type) (text : list Z) (exec : Z -> option R * Z) (minreq : Z),
+    fd_minlen_fact R text exec minreq ->
+    forall ch d, 0 <= d -> fd_fdchar_fact R text exec ch d ->
+    fd_sound R text exec (fun p => fd_find_fixed_distance_char text minreq p ch d).
+Proof. exact fd_fixed_distance_char_sound. Qed.
+Print Assumptions C03_finder_fixed_distance_char.
+
+(* FixedDistanceString_LeftToRight: runner.go:1658 findFixedDistanceStringLeftToRight *)
+Theorem C03_finder_fixed_distance_string :
+  forall (R : Type) (text : list Z) (exec : Z -> option R * Z) (minreq : Z),
+    fd_minlen_fact R text exec minreq ->
+    forall (lit : list Z) d, 0 <= d -> fd_fdstring_fact R text exec lit d ->
+    fd_sound R text exec (fun p => fd_find_fixed_distance_string text minreq p lit d).
+Proof. exact fd_fixed_distance_string_sound. Qed.
+Print Assumptions C03_finder_fixed_distance_string.
+
+(* FixedDistanceSets_LeftToRight and LeadingSet_LeftToRight: runner.go:1686
+   findFixedDistanceSetsLeftToRight with indexOfSet / fixedDistanceSetsMatchAt / charInFixedDistanceSet.
+   The primary set (sets[0]) must have a non-nil Set and a non-negative distance. *)
+Theorem C03_finder_fixed_distance_sets :
+  forall (R : Type) (text : list Z) (exec : Z -> option R * Z) (minreq : Z),
+    fd_minlen_fact R text exec minreq ->
+    forall (set_in : Z -> Z -> bool) (sets : list fdset) (primary : fdset) (rest : list fdset) (id : Z),
+    sets = primary :: rest -> fs_set primary = Some id -> 0 <= fs_distance primary ->
+    fd_fds_fact R text exec set_in sets ->
+    fd_sound R text exec (fun p => fd_find_fixed_distance_sets text set_in minreq p sets).
+Proof. exact fd_fixed_distance_sets_sound. Qed.
+Print Assumptions C03_finder_fixed_distance_sets.
+
+(* ---- non-vacuity: concrete matchers for which the facts hold and the finders skip positions ---- *)
+
+(* text "xabcabd" (n = 7); the matcher wants "abc" followed by one more rune: it succeeds at 1 only *)
+Definition fx_text : list Z := [120; 97; 98; 99; 97; 98; 100].
+Definition fx_exec (p : Z) : option Z * Z := (if p =? 1 then Some p else None, p).
+Definition fx_low (x : Z) : Z := if (65 <=? x) && (x <=? 90) then x + 32 else x.
+
+(* leading string "abc": from 0 the finder jumps to 1, from 2 it gives up (no later occurrence) *)
+Example C03_finder_leading_string_witness :
+  fd_find_leading_string fx_text fx_low 4 0 [97; 98; 99] false = Ok (true, 1) /\
+  fd_find_leading_string fx_text fx_low 4 2 [97; 98; 99] false = Ok (false, 7) /\
+  sc_chk_H1 Z 7 false (fd_total (fun p => fd_find_leading_string fx_text fx_low 4 p [97; 98; 99] false)) fx_exec = true /\
+  scan 7 false 4 (fd_total (fun p => fd_find_leading_string fx_text fx_low 4 p [97; 98; 99] false)) fx_exec 0 (-1) = Ok (Some 1) /\
+  naive_scan 7 false fx_exec 0 (-1) = Ok (Some 1).
+Proof. vm_compute. repeat split; reflexivity. Qed.
+
+(* ... and the theorem applies: the facts hold for this matcher *)
+Example C03_finder_leading_string_applies :
+  fd_sound Z fx_text fx_exec (fun p => fd_find_leading_string fx_text fx_low 4 p [97; 98; 99] false).
+Proof.
+  assert (Hone : forall q, fd_succeeds Z fx_exec q -> q = 1).
+  { intros q H. unfold fd_succeeds, fx_exec in H. cbn [fst] in H. destruct (q =? 1) eqn:E; [lia | contradiction]. }
+  apply C03_finder_leading_string.
+  - intros q Hq Hs. rewrite (Hone q Hs). vm_compute. discriminate.
+  - intros q Hq Hs. rewrite (Hone q Hs). vm_compute. reflexivity.
+Qed.
+
+(* ignore-case leading string "abc" on "xABcabd": ASCII folding finds the occurrence at 1 *)
+Example C03_finder_leading_string_ic_witness :
+  fd_find_leading_string [120; 65; 66; 99; 97; 98; 100] fx_low 4 0 [97; 98; 99] true = Ok (true, 1) /\
+  sc_chk_H1 Z 7 false (fd_total (fun p => fd_find_leading_string [120; 65; 66; 99; 97; 98; 100] fx_low 4 p [97; 98; 99] true)) fx_exec = true.
+Proof. vm_compute. repeat split; reflexivity. Qed.
+
+(* A WRONG fact: the finder is told "abd" although the matcher matches "abc?" at 1: the match is lost
+   (the finder proposes 4, where the attempt fails, then gives up) *)
+Example C03_finder_wrong_prefix_loses_match :
+  let bad := fd_total (fun p => fd_find_leading_string fx_text fx_low 3 p [97; 98; 100] false) in
+  bad 0 = (true, 4) /\
+  sc_chk_H1 Z 7 false bad fx_exec = false /\
+  scan 7 false 3 bad fx_exec 0 (-1) = Ok None /\
+  naive_scan 7 false fx_exec 0 (-1) = Ok (Some 1).
+Proof. vm_compute. repeat split; reflexivity. Qed.
+
+(* leading strings {"abc","abd"} with first runes [a]: first-rune search; from 2 the next candidate is 4
+   (where the attempt of this matcher fails): the finder may stop at a non-match, never skip a match *)
+Example C03_finder_leading_strings_witness :
+  let F := fun ic firsts p => fd_find_leading_strings fx_text fx_low 4 p [[97; 98; 99]; [97; 98; 100]] firsts ic in
+  F false [97] 0 = Ok (true, 1) /\ F false [97] 2 = Ok (false, 7) /\
+  F false [] 0 = Ok (true, 1) /\ F true [97] 0 = Ok (true, 1) /\
+  fd_find_leading_strings fx_text fx_low 3 2 [[97; 98; 99]; [97; 98; 100]] [97] false = Ok (true, 4) /\
+  fd_leading_prefix_first_runes [[97; 98; 99]; [97; 98; 100]; [120]] = [97; 120] /\
+  sc_chk_H1 Z 7 false (fd_total (F false [97])) fx_exec = true /\
+  sc_chk_H1 Z 7 false (fd_total (F true [97])) fx_exec = true.
+Proof. vm_compute. repeat split; reflexivity. Qed.
+
+(* A first-rune list that misses a prefix's first rune loses the match at 1 *)
+Example C03_finder_wrong_first_runes_loses_match :
+  let bad := fd_total (fun p => fd_find_leading_strings fx_text fx_low 4 p [[97; 98; 99]; [120; 98]] [120] false) in
+  bad 1 = (false, 7) /\ sc_chk_H1 Z 7 false bad fx_exec = false /\
+  scan 7 false 4 bad fx_exec 1 (-1) = Ok None /\ naive_scan 7 false fx_exec 1 (-1) = Ok (Some 1).
+Proof. vm_compute. repeat split; reflexivity. Qed.
+
+(* fixed-distance char: 'c' at distance 2 *)
+Example C03_finder_fixed_distance_char_witness :
+  fd_find_fixed_distance_char fx_text 4 0 99 2 = Ok (true, 1) /\
+  fd_find_fixed_distance_char fx_text 4 2 99 2 = Ok (false, 7) /\
+  sc_chk_H1 Z 7 false (fd_total (fun p => fd_find_fixed_distance_char fx_text 4 p 99 2)) fx_exec = true.
+Proof. vm_compute. repeat split; reflexivity. Qed.
+
+(* an off-by-one distance loses the match *)
+Example C03_finder_wrong_distance_loses_match :
+  let bad := fd_total (fun p => fd_find_fixed_distance_char fx_text 4 p 99 1) in
+  bad 0 = (true, 2) /\ sc_chk_H1 Z 7 false bad fx_exec = false /\
+  scan 7 false 4 bad fx_exec 0 (-1) = Ok None /\ naive_scan 7 false fx_exec 0 (-1) = Ok (Some 1).
+Proof. vm_compute. repeat split; reflexivity. Qed.
+
+(* fixed-distance string "bc" at distance 1 *)
+Example C03_finder_fixed_distance_string_witness :
+  fd_find_fixed_distance_string fx_text 4 0 [98; 99] 1 = Ok (true, 1) /\
+  fd_find_fixed_distance_string fx_text 4 2 [98; 99] 1 = Ok (false, 7) /\
+  sc_chk_H1 Z 7 false (fd_total (fun p => fd_find_fixed_distance_string fx_text 4 p [98; 99] 1)) fx_exec = true.
+Proof. vm_compute. repeat split; reflexivity. Qed.
+
+(* fixed-distance sets: primary [cd] (enumerated) at distance 2, secondary [a-b] (range) at distance 0,
+   and a general set (id 0 = "is a lower-case letter") at distance 3.  From 0 the primary set first hits
+   'c' at 3 -> start 1, all sets agree.  From 2 the only later hit of the primary set is 'd' at 6 -> start 4,
+   beyond the latest possible start 7 - 4 = 3: the finder gives up.  With minimum length 3 the candidate 4
+   is in range: the first two sets accept it, the third (distance 3 = beyond the end) rejects it. *)
+Definition fx_sets : list fdset :=
+  [ {| fs_set := Some 1; fs_chars := [99; 100]; fs_negated := false; fs_range := None; fs_distance := 2 |};
+    {| fs_set := Some 2; fs_chars := []; fs_negated := false; fs_range := Some (97, 98); fs_distance := 0 |};
+    {| fs_set := Some 0; fs_chars := []; fs_negated := false; fs_range := None; fs_distance := 3 |} ].
+Definition fx_set_in (id x : Z) : bool := (id =? 0) && (97 <=? x) && (x <=? 122).
+Example C03_finder_fixed_distance_sets_witness :
+  fd_find_fixed_distance_sets fx_text fx_set_in 4 0 fx_sets = Ok (true, 1) /\
+  fd_find_fixed_distance_sets fx_text fx_set_in 4 2 fx_sets = Ok (false, 7) /\
+  fd_find_fixed_distance_sets fx_text fx_set_in 3 2 (firstn 2 fx_sets) = Ok (true, 4) /\
+  fd_find_fixed_distance_sets fx_text fx_set_in 3 2 fx_sets = Ok (false, 7) /\
+  sc_chk_H1 Z 7 false (fd_total (fun p => fd_find_fixed_distance_sets fx_text fx_set_in 4 p fx_sets)) fx_exec = true.
+Proof. vm_compute. repeat split; reflexivity. Qed.
+
+(* a negated primary set [^c] at distance 2 is wrong for this matcher: position 1 is skipped *)
+Example C03_finder_wrong_set_loses_match :
+  let bad := fd_total (fun p => fd_find_fixed_distance_sets fx_text fx_set_in 4 p
+               [ {| fs_set := Some 1; fs_chars := [99]; fs_negated := true; fs_range := None; fs_distance := 2 |} ]) in
+  bad 1 = (true, 2) /\ sc_chk_H1 Z 7 false bad fx_exec = false /\
+  scan 7 false 4 bad fx_exec 1 (-1) = Ok None /\ naive_scan 7 false fx_exec 1 (-1) = Ok (Some 1).
+Proof. vm_compute. repeat split; reflexivity. Qed.
+
+(* trailing fixed-length end: a matcher that only matches 3 runes before the end *)
+Example C03_finder_trailing_end_witness :
+  let ex := fun p : Z => (if p =? 4 then Some p else None, p) in
+  fd_find_trailing_fixed_length_end fx_text 0 3 = Ok (true, 4) /\
+  fd_find_trailing_fixed_length_end fx_text 5 3 = Ok (false, 7) /\
+  sc_chk_H1 Z 7 false (fd_total (fun p => fd_find_trailing_fixed_length_end fx_text p 3)) ex = true /\
+  scan 7 false 3 (fd_total (fun p => fd_find_trailing_fixed_length_end fx_text p 3)) ex 0 (-1) = Ok (Some 4).
+Proof. vm_compute. repeat split; reflexivity. Qed.
+
+(* a wrong fixed length (2 instead of 3) moves the candidate past the match *)
+Example C03_finder_wrong_fixed_length_loses_match :
+  let ex := fun p : Z => (if p =? 4 then Some p else None, p) in
+  let bad := fd_total (fun p => fd_find_trailing_fixed_length_end fx_text p 2) in
+  bad 0 = (true, 5) /\ sc_chk_H1 Z 7 false bad ex = false /\
+  scan 7 false 2 bad ex 0 (-1) = Ok None /\ naive_scan 7 false ex 0 (-1) = Ok (Some 4).
 Proof. vm_compute. repeat split; reflexivity. Qed.
